@@ -304,3 +304,98 @@ func VHSortLong() {
 		vCover("sort long n >= 51")
 	}
 }
+
+// VHSortAdversary: the comparison function is McIlroy's adversary ("A Killer Adversary for
+// Quicksort", 1999): it decides the order of the elements only as the algorithm asks, always
+// so as to make the pivot as bad as possible. That drives quicksort-family implementations
+// into their rarely executed fallback (depth limit, heapsort, bad-pivot handling) at lengths
+// where no fixed pattern does. The run is concrete apart from the payloads; the input the
+// adversary settles on is then given to Sort / SortDesc as plain ints.
+func VHSortAdversary() {
+	lens := []int{40, 100, 300}
+	n := lens[vChoose("len", len(lens))]
+	if vParam("ADVMAX") < n {
+		n = vParam("ADVMAX")
+	}
+	variant := vChoose("variant", 4)
+	gas := n
+	val := make([]int, n)
+	for i := range val {
+		val[i] = gas
+	}
+	nsolid, candidate := 0, 0
+	adv := func(a, b int) bool {
+		if val[a] == gas && val[b] == gas {
+			if a == candidate {
+				val[a] = nsolid
+			} else {
+				val[b] = nsolid
+			}
+			nsolid++
+		}
+		if val[a] == gas {
+			candidate = a
+		} else if val[b] == gas {
+			candidate = b
+		}
+		return val[a] < val[b]
+	}
+	type rec struct{ idx, payload int }
+	s := make([]rec, n)
+	for i := range s {
+		s[i] = rec{i, vInt("p")}
+	}
+	snap := append([]rec(nil), s...)
+	less := func(a, b rec) bool { return adv(a.idx, b.idx) }
+	desc := false
+	switch variant {
+	case 0:
+		SortFunc(s, less)
+	case 1:
+		SortDescFunc(s, less)
+		desc = true
+	case 2:
+		SortStableFunc(s, less)
+	case 3:
+		SortStableDescFunc(s, less)
+		desc = true
+	}
+	seen := make([]bool, n)
+	for i := range s {
+		if i > 0 {
+			if desc {
+				vAssert(val[s[i-1].idx] >= val[s[i].idx], "Sort*DescFunc (adversary): descending under less")
+			} else {
+				vAssert(val[s[i-1].idx] <= val[s[i].idx], "Sort*Func (adversary): ascending under less")
+			}
+		}
+		t := s[i].idx
+		vAssert(t >= 0 && t < n && !seen[t], "Sort*Func (adversary): permutation of the input")
+		if t >= 0 && t < n {
+			seen[t] = true
+			vAssert(s[i].payload == snap[t].payload, "Sort*Func (adversary): every element travels whole")
+		}
+	}
+	// the input the adversary settled on, as plain ordered values
+	ints := append([]int(nil), val...)
+	ints2 := append([]int(nil), val...)
+	Sort(ints)
+	SortDesc(ints2)
+	cnt := make([]int, n+1)
+	for _, v := range val {
+		cnt[v]++
+	}
+	for i := range ints {
+		if i > 0 {
+			vAssert(ints[i-1] <= ints[i], "Sort (adversarial input): ascending")
+			vAssert(ints2[i-1] >= ints2[i], "SortDesc (adversarial input): descending")
+		}
+		if ints[i] >= 0 && ints[i] <= n {
+			cnt[ints[i]]--
+		}
+	}
+	for _, c := range cnt {
+		vAssert(c == 0, "Sort (adversarial input): permutation of the input")
+	}
+	vCover("sort adversary done")
+}
